@@ -28,6 +28,36 @@ CLAIMS = {
          "Theorem C05_fields_tightly_packed: every field at the least aligned address after its predecessor, for every list. Footprint parts (ii)/(iii) are checked by the correspondence and oracle. "
          "Tie: field addresses vs greedy layout, memory_consumption().",
          "5 C05"),
+ "C02": ("proof (capacity arithmetic for all-fixed lists, Rep bounds) + refutation witness + correspondence with guard zones",
+         "Theorems C02_fixed_capacity_sufficient (every list without VaryingSize parameter: N elements fit the block, via esize_spec), C02_elements_inside_data (Rep: every element inside [data_begin,data_end)), "
+         "C02_varying_capacity_refuted (vm_compute witness that the needed-memory formula under-estimates lists with a tail behind the last VaryingSize parameter = known finding). Sufficiency for lists ending in a VaryingSize parameter is NOT proved (partial). "
+         "Tie: fills to the documented limits under a guard-zone allocator, field extents vs memory_consumption().",
+         "5 C02"),
+ "C06": ("proof (element-level lifetime balance) + correspondence with instrumented value types; partial",
+         "Theorems C06_emplace_constructs_each_object_once, C06_destruct_destroys_each_object_once, C06_emplace_then_destruct_balanced for every parameter list. PARTIAL: the history-level invariant is proved only where it is vacuous-by-refinement (trivially relocatable lists, C01); "
+         "non-trivial lists are decided by the correspondence: registry of live instrumented objects (overlap, double construction/destruction, clobbered shadow bytes), event streams vs model, relocation-through-constructor oracle. Known finding: erase on VaryingSize lists of non-trivial types.",
+         "5 C06"),
+ "C07": ("proof (ledger automaton invariant over histories) + correspondence with a ledger allocator",
+         "Theorem C07_whole_life_balanced: construction, ANY history, destruction leaves the allocation ledger empty (trivially relocatable lists); C07_destroy_returns_everything for every list. "
+         "Tie: every allocate/deallocate of the implementation (identity, unit size, count, block) vs the model's, guard zones, leak oracle at the end of every script, special-member histories over 6 (quick) / 32 (thorough) allocator kinds.",
+         "5 C07"),
+ "C08": ("proof (case analysis over allocator traits on the world model) + correspondence over allocator kinds",
+         "Theorems C08_copy_construction / copy_assignment / move_assignment / move_assignment_elementwise / swap: allocator identity after every special member for every allocator kind, with value semantics. Tie: get_allocator() and the allocating identity of every block in special-member histories.",
+         "5 C08"),
+ "C09": ("proof (world-level refinement: relocate_rep) + correspondence on multi-vector histories",
+         "Theorems C09_copy_construction / copy_assignment / move_assignment / swap / moved_from_state: targets represent the source's list of tuples, sources unchanged (or moved-from), for every list of trivially relocatable types, allocator kind, target state. Tie: both operands observed after every step of random copy/move/swap histories.",
+         "5 C09"),
+ "C10": ("proof (corollary of the refinement) + correspondence; known finding on the capacity promise",
+         "Theorems C10_reserve_keeps_contents (Rep preserved, capacity = max, fixed sizes kept) and C10_reserve_within_capacity_is_noop. The promise 'n elements / b bytes then fit' inherits C02 (proved for all-fixed lists, known finding otherwise). Tie: histories with reserve at every fill level; reserve-then-fill-to-the-limits under guard zones.",
+         "5 C10"),
+ "C16": ("proof (event and address lemmas on the model) + correspondence with ledger allocator",
+         "Theorems C16_*: emplace_back/pop_back/clear never call the allocator and keep the block (every list); erase likewise (trivially relocatable lists); reserve within capacity is the identity; stored elements keep their addresses; swap exchanges blocks. "
+         "Tie: per-step allocation events, block ids and object offsets before/after each operation, incl. swap and move construction.",
+         "5 C16"),
+ "C18": ("proof (empty-state invariant zero_inv, refinement from the empty state) + correspondence on an empty-state script family",
+         "Theorems C18_*: fresh, emptied and default-constructed vectors have size 0, data_end()=data_begin(), no uninitialised slot is consulted (model reads of unwritten slots would yield -1 offsets and disagree), clear keeps them empty. "
+         "Tie: family of default-constructed / zero-capacity / never-filled / emptied-three-ways vectors under alternating junk fills, followed by reserve+emplace_back.",
+         "5 C18"),
 }
 
 checks = []
